@@ -969,6 +969,16 @@ func NewEnum(config EnumConfig) *Enum {
 	if gt.values, gt.err = gt.defineEnumValues(config.Values); gt.err != nil {
 		return gt
 	}
+	// Build the lookup tables eagerly so that concurrent first use of the
+	// enum never writes shared state.
+	gt.nameLookup = map[string]*EnumValueDefinition{}
+	gt.valuesLookup = map[interface{}]*EnumValueDefinition{}
+	for _, value := range gt.values {
+		gt.nameLookup[value.Name] = value
+		if value.Value != nil && reflect.TypeOf(value.Value).Comparable() {
+			gt.valuesLookup[value.Value] = value
+		}
+	}
 
 	return gt
 }
